@@ -263,6 +263,11 @@ func cmdCheck(args []string) int {
 		}
 		unlisted++
 		seenFP[f.Viol.FP]++
+		if os.Getenv("VERIF_SHOW_ALL") != "" {
+			if seenFP[f.Viol.FP] <= 1 {
+				fmt.Printf("  [all] fp=%s ctx=%v\n    %s\n    path: %s\n", f.Viol.FP, f.Viol.Ctx, f.Viol.Detail, world.PathString(f.Path))
+			}
+		}
 		if seenFP[f.Viol.FP] > 2 || n >= 12 {
 			continue
 		}
@@ -276,6 +281,16 @@ func cmdCheck(args []string) int {
 		fmt.Printf("  rule=%s fp=%s ctx=%v\n  %s\n  path: %s\n", f.Viol.Rule, f.Viol.FP, f.Viol.Ctx, f.Viol.Detail, world.PathString(f.Path))
 		if f.Custom != nil {
 			fmt.Printf("  input: %s\n", world.J(f.Custom))
+		}
+	}
+	if unlisted > n {
+		fps := []string{}
+		for fp := range seenFP {
+			fps = append(fps, fp)
+		}
+		sort.Strings(fps)
+		for _, fp := range fps {
+			fmt.Printf("  unlisted violations with fingerprint %s: %d\n", fp, seenFP[fp])
 		}
 	}
 	coverage["known_findings_matched"] = len(printedKnown)
